@@ -7,6 +7,7 @@ from ..dbx import BuildFailure, Builder, make_engines
 
 ID = "C01"
 LEVEL = "exploration"
+TECHNIQUE = "runtime monitoring: differential execution of iteration.Engine.execute against a reference model on generated programs"
 RULE = (
     "seeded random programs of factory calls (calculation, projection, selection, deduplication, sort, slice, "
     "chain, materialization, iteration->iteration transfer) over leaves with 0-3 key/non-key columns, 0-11 rows, "
